@@ -29,6 +29,12 @@ def row_context_pushes(prog, f):
     return out
 
 
+def _is_original_index(y):
+    """`row.original_index`, or the column itself: `df["original_index"]` / `df.original_index`"""
+    return (isinstance(y, ast.Attribute) and y.attr == "original_index") or (
+        isinstance(y, ast.Subscript) and isinstance(y.slice, ast.Constant) and y.slice.value == "original_index")
+
+
 def run(ctx):
     prog, cg = ctx.prog, ctx.cg
     ctx.rule("R7.1", "push_error_context/pop_error_context balanced on every normal path (correlated guards enumerated)")
@@ -114,14 +120,14 @@ def run(ctx):
                 "invalid_original_rows" in norm(x.comparators[0]):
             n_map += 1
             by_index = (isinstance(x.left, ast.Attribute) and x.left.attr == "original_index") or depends_on(
-                ReachingDefs(roc), x.left, x, lambda y: isinstance(y, ast.Attribute) and y.attr == "original_index")
+                ReachingDefs(roc), x.left, x, _is_original_index)
             ctx.check(by_index, "R7.5", roc.qualname, x, loc(roc, x),
                       "membership in the set of file rows that already failed is tested with `%s`, which is not the row's "
                       "original_index: after sorting / Delay splitting the wrong time point is skipped" % norm(x.left),
                       desc="failed-row skip uses original_index")
     for call in row_context_pushes(prog, roc):
         n_map += 1
-        ctx.check(depends_on(ReachingDefs(roc), call.args[1], call, lambda y: isinstance(y, ast.Attribute) and y.attr == "original_index"), "R7.5",
+        ctx.check(depends_on(ReachingDefs(roc), call.args[1], call, _is_original_index), "R7.5",
                   roc.qualname, call, loc(roc, call), "the row label pushed in the onset pass does not derive from original_index",
                   desc="onset-pass row label derives from original_index")
     ctx.floor("R7.5", "file-row mappings in the onset pass", n_map, 2)
@@ -370,6 +376,15 @@ def _adj_locals(validate):
                         has_hdr = True
         if has_one and has_hdr:
             out.add(name)
+    # a local that is only ever a plain copy of an adjustment local is the adjustment too (`row_adj = _computed`)
+    grew = True
+    while grew:
+        grew = False
+        for name, defs in cands.items():
+            if name not in out and defs and all(isinstance(d, ast.Assign) and isinstance(d.value, ast.Name) and d.value.id in out
+                                                for d in defs):
+                out.add(name)
+                grew = True
     return out
 
 
